@@ -20,6 +20,9 @@ def run(ctx):
     ctx.samples = tc.sample(progs, 2) + tc.sample(rnd, 1)
     ctx.distinct = tc.distinct(progs + rnd)
     tc.judge(ctx, programs, "c03")
+    # the seeded programs again on the build with integer-overflow checks and debug assertions
+    vlib.run_and_judge(ctx, rnd[:600], "Trace_Tables.cfg", "Trace_Tables.tla", "c03chk", profile="checked")
+    ctx.extra["builds"] = ["release", "checked (overflow checks + debug assertions) for the seeded programs"]
     return vlib.finish(ctx, rule="histories over all variable-body tables (MC_Tables to the depth bound, random mixtures with 0..n "
                        "sub-elements and strings of both length parities, 300-entry histories); predicate: the independent "
                        "walker of Walk.tla tiles the observed image exactly, visits the added entries in order with the right type "
